@@ -19,7 +19,9 @@ import math
 import multiprocessing
 import os
 import random
+import re
 import shutil
+import time
 
 import runner
 import xmlfault as xf
@@ -30,8 +32,11 @@ LEVEL = "fault_enumeration"
 EXAMPLES_DIR = os.path.join(os.environ.get("VERIF_REPO") or "/repo", "examples")
 UNIT_MAX_CASES = 260
 UNIT_MAX_BYTES = 24 * 1024 * 1024
-CASE_TIMEOUT = 20.0
+CASE_TIMEOUT = 10.0  # shard watchdog (no result for this long); a legitimate case costs milliseconds
 RERUN_TIMEOUT = 300.0
+SUB_BATCH = 32  # cases per driver launch; the time-out budget is consulted between launches
+TIMEOUT_LIMIT = 12  # after this many first-run time-outs (all workers together) the remaining cases are skipped
+TIMEOUTS = multiprocessing.get_context("fork").Value("i", 0)
 
 # ------------------------------------------------------------------------------------------------
 # models (shared with the forked workers through module globals)
@@ -139,6 +144,30 @@ def describe(item):
 # ------------------------------------------------------------------------------------------------
 
 
+def norm_panic(p):
+    """Panic record with a build-independent `frame`: the first frame that is a dmntk function (generic std
+    frames such as `<usize as SliceIndex<[dmntk_model::..]>>::index`, which only the non-inlined builds show,
+    are skipped; nightly's `<Type>::method` / `{closure#0}` spelling is folded into stable's)."""
+    if not isinstance(p, dict):
+        return p
+    chosen = None
+    for f in [p.get("frame") or ""] + list(p.get("frames") or []):
+        f = re.sub(r"::\{closure#\d+\}", "", f)
+        f = re.sub(r"::\{\{closure\}\}", "", f)
+        m = re.match(r"^<(dmntk_[\w:]+)>(::[\w:]+)$", f)
+        if m:
+            f = m.group(1) + m.group(2)
+        if re.match(r"^dmntk_[\w:]+$", f):
+            chosen = f
+            break
+    q = dict(p)
+    if chosen is not None:
+        q["frame"] = chosen
+    else:
+        q["frame"] = re.sub(r":\d+$", "", p.get("loc") or "?")
+    return q
+
+
 def stack_overflow(stderr):
     return "has overflowed its stack" in stderr or "stack overflow" in stderr or "stack-overflow" in stderr
 
@@ -154,6 +183,8 @@ def judge(rec, sclass):
     """-> (outcome label, [(signature, what)], timed_out, n_calls, n_null)"""
     if rec is None or "harness_error" in rec or rec.get("missing"):
         raise runner.Inconclusive("driver reported a harness error: %s" % json.dumps(rec)[:300])
+    if rec.get("skipped"):
+        return "skipped-after-timeouts", [], False, 0, 0
     if "timeout" in rec:
         return "timeout", [], True, 0, 0
     if "crash" in rec:
@@ -161,7 +192,7 @@ def judge(rec, sclass):
         tail = " ".join(c.get("stderr", "").split())[-300:]
         return "crash", [(crash_sig(rec, sclass), "process died (%s, rc=%s): %s" % (c.get("signal"), c.get("returncode"), tail))], False, 0, 0
     if "panic" in rec:
-        p = rec["panic"]
+        p = norm_panic(rec["panic"])
         return "panic-" + str(rec.get("stage")), [(panic_signature(p), "panic during %s: %s at %s" % (rec.get("stage"), p.get("msg"), p.get("loc")))], False, 0, 0
     if "parse_err" in rec:
         return "parse_err", [], False, 0, 0
@@ -173,7 +204,7 @@ def judge(rec, sclass):
     n_null = 0
     for r in rec["rs"]:
         if "panic" in r:
-            p = r["panic"]
+            p = norm_panic(r["panic"])
             bad.append((panic_signature(p), "panic evaluating invocable %r with input #%s: %s at %s" % (r.get("name"), r.get("k"), p.get("msg"), p.get("loc"))))
         elif r.get("v") is None:
             n_null += 1
@@ -205,7 +236,24 @@ def run_unit(unit):
             info.append((cls, sclass))
             hashes.append(hashlib.blake2b(text.encode("utf-8", "surrogatepass"), digest_size=8).digest())
         label = "u%06d" % uid
-        results, meta = runner.run_cases(variant, cases, workdir, label=label, nshards=1, case_timeout=timeout)
+        results = []
+        launches = 0
+        san = []
+        for off in range(0, len(cases), SUB_BATCH):
+            if timeout < RERUN_TIMEOUT and TIMEOUTS.value >= TIMEOUT_LIMIT:
+                results.extend({"skipped": True} for _ in range(len(cases) - off))
+                break
+            rs, meta = runner.run_cases(variant, cases[off : off + SUB_BATCH], workdir, label=label, nshards=1, case_timeout=timeout)
+            results.extend(rs)
+            launches += meta.get("launches", 0)
+            san.extend(meta.get("sanitizer_reports", []))
+            nt = sum(1 for r in rs if r is not None and "timeout" in r)
+            if nt and timeout < RERUN_TIMEOUT:
+                with TIMEOUTS.get_lock():
+                    TIMEOUTS.value += nt
+            d = meta.get("dir")
+            if d and os.path.isdir(d):
+                shutil.rmtree(d, ignore_errors=True)
         out = {
             "uid": uid,
             "variant": variant,
@@ -217,8 +265,8 @@ def run_unit(unit):
             "timeouts": [],
             "crashed": [],  # items whose process died (for pair attribution)
             "hashes": hashes,
-            "launches": meta.get("launches", 0),
-            "sanitizer_reports": [s[-1500:] for s in meta.get("sanitizer_reports", [])][:3],
+            "launches": launches,
+            "sanitizer_reports": [x[-1500:] for x in san][:3],
         }
         for it, (cls, sclass), rec, case in zip(items, info, results, cases):
             label_, bad, timed_out, n_calls, n_null = judge(rec, sclass)
@@ -240,9 +288,6 @@ def run_unit(unit):
                     v[4][sclass] += 1
                     if len(case["xml"]) < v[3]:
                         v[1], v[2], v[3] = what, it, len(case["xml"])
-        d = meta.get("dir")
-        if d and os.path.isdir(d):
-            shutil.rmtree(d, ignore_errors=True)
         return out
     except runner.Inconclusive as e:
         return {"uid": uid, "inconclusive": str(e)}
@@ -290,6 +335,7 @@ class Pass(object):
         self.hashes = set()
         self.launches = 0
         self.sanitizer_reports = []
+        self.wall = 0.0
 
 
 _UID = [0]
@@ -299,6 +345,7 @@ def run_pass(pool, rep, name, variant, items, timeout=CASE_TIMEOUT):
     ps = Pass(name, variant)
     if not items:
         return ps
+    t0 = time.time()
     units = make_units(variant, items, rep.workdir, timeout, _UID[0])
     _UID[0] += len(units)
     for out in pool.imap_unordered(run_unit, units, 1):
@@ -326,6 +373,7 @@ def run_pass(pool, rep, name, variant, items, timeout=CASE_TIMEOUT):
                 w[4].update(v[4])
                 if v[3] < w[3]:
                     w[1], w[2], w[3] = v[1], v[2], v[3]
+    ps.wall = round(time.time() - t0, 1)
     return ps
 
 
@@ -488,7 +536,9 @@ def run(rep, tier, seed):
         passes.append(run_pass(pool, rep, "pairs", "rel", pairs[:: 4 if tier == "quick" else 10]))
         passes.append(run_pass(pool, rep, "corruption", "rel", corrupt[:: 4 if tier == "quick" else 10]))
         if asan_singles:
-            passes.append(run_pass(pool, rep, "originals+hostile", "asan", originals + hostile, timeout=90.0))
+            # finite-depth nesting is a question about the 8 MiB budget; ASan's inflated frames would change the question
+            shallow = [h for h in hostile if not HOSTILE[h[1]][0].startswith("nested-")]
+            passes.append(run_pass(pool, rep, "originals+hostile", "asan", originals + shallow, timeout=90.0))
             passes.append(run_pass(pool, rep, "singles", "asan", asan_singles, timeout=90.0))
         # ---- attribution of pair crashes: is one of the two faults enough on its own? ----
         executed_single = {"dbg": set(dbg_singles), "rel": set(rel_singles)}
@@ -510,6 +560,10 @@ def run(rep, tier, seed):
                     if ("s", it[1], fi) in solo and sig.endswith(pair_class):
                         final = sig[: -len(pair_class)] + faults[fi].sclass
                         break
+                if final == sig and sig.endswith(pair_class):
+                    # neither fault is enough on its own: name the cause the two build together
+                    cause = xf.find_cycle(item_text(it)[0])
+                    final = sig[: -len(pair_class)] + ("pair-only:" + cause if cause else "pair-only:no-cycle:" + pair_class)
                 resolved_pairs.append((ps.variant, it, final, what, size))
         # ---- timeouts: re-run alone with the long budget (at most 2 per fault class and variant) ----
         hang_units = []
@@ -538,6 +592,10 @@ def run(rep, tier, seed):
                     # completed when run alone: slow, not a violation (but it may have died or panicked instead)
                     passes.append(_pass_from_unit(o, v))
         rep.undecided += skipped_timeouts
+    n_skipped = sum(ps.outcomes.get("skipped-after-timeouts", 0) for ps in passes)
+    if n_skipped:
+        rep.undecided += n_skipped
+        rep.inconclusive_reason("%d cases were not run: more than %d cases timed out in the sharded run (each is re-run alone, see hang:* signatures)" % (n_skipped, TIMEOUT_LIMIT))
 
     # ------------------------------------------------------------------ verdicts
     total_cases = 0
@@ -624,6 +682,7 @@ def run(rep, tier, seed):
     rep.extra["outcomes"] = dict(sorted(outcomes.items()))
     rep.extra["distinct_mutated_texts"] = len(texts)
     rep.extra["driver_launches"] = launches
+    rep.extra["pass_wall_s_informative_only"] = ["%s/%s: %d cases %.1fs" % (ps.name, ps.variant, ps.n, ps.wall) for ps in passes]
     rep.extra["timeouts_first_run"] = sum(len(ps.timeouts) for ps in passes)
     rep.extra["timeouts_confirmed_hangs"] = len(hangs)
     rep.extra["violation_signature_by_fault_class"] = {s: dict(c.most_common(12)) for s, c in sorted(sig_classes.items())}
